@@ -32,6 +32,7 @@ def rules(ctx):
     fr.r_arm_purity(ctx)
     fr.r_symmetry(ctx)
     fr.r_relink(ctx)
+    fr.r_push_sorted(ctx)
     fr.r_fresh(ctx)
     fr.r_bitmap(ctx)
     fr.r_stale(ctx)
